@@ -1073,7 +1073,9 @@ MC_JOBS = {
               # devices whose stop()/pause()/resume() really await: the pause sequence, suspension start and clean-up are parks
               ("aopen", dict(max_req=1, async_devs=["amotor", "apdet"])),
               # a suspender object on a signal: install / remove / signal changes at every park (incl. before the first step)
-              ("simple", dict(max_req=0, suspenders=["s1"], max_sus_ops=3))],
+              ("simple", dict(max_req=0, suspenders=["s1"], max_sus_ops=3)),
+              # seeded random programs over the whole vocabulary, one request of any kind, every caller decision
+              ("rp0", dict(max_req=1)), ("rp5", dict(max_req=1))],
     "thorough": [("simple", dict(max_req=2)), ("fin", dict(max_req=2)), ("two", dict(max_req=2, req_kinds=["pause", "suspend", "abort", "defer"])),
                  ("move", dict(max_req=1, max_faults=1, fault_kinds=["raise", "fail", "later"])),
                  ("mon", dict(max_req=1, max_updates=2)), ("multi", dict(max_req=1)), ("defer", dict(max_req=2, req_kinds=["defer", "pause", "abort"])),
@@ -1081,7 +1083,8 @@ MC_JOBS = {
                  ("aopen", dict(max_req=2, async_devs=["amotor", "apdet"])), ("amove", dict(max_req=1, async_devs=["amotor", "apdet"])),
                  ("simple", dict(max_req=0, suspenders=["s1"], max_sus_ops=3)),
                  ("simple", dict(max_req=1, req_kinds=["pause", "abort"], suspenders=["s1"], max_sus_ops=3)),
-                 ("two", dict(max_req=0, suspenders=["s1", "s2"], max_sus_ops=3))],
+                 ("two", dict(max_req=0, suspenders=["s1", "s2"], max_sus_ops=3))]
+                + [(f"rp{i}", dict(max_req=1)) for i in range(10)] + [("rp3", dict(max_req=2, req_kinds=["pause", "suspend", "abort"]))],
 }
 
 
@@ -1089,6 +1092,7 @@ def get_mc(tier):
     """model-check every job of the tier once (cached, shared by all RE-core properties)"""
     def build():
         from harness.core import Ctx
+        random_programs(tier)          # (defines the rp<n> programs the jobs below refer to)
         ctx = Ctx("_mc", tier, 0)
         out = []
         for idx, (plan, kw) in enumerate(MC_JOBS[tier]):
